@@ -13,6 +13,7 @@ from types import NoneType
 from copy import copy
 
 from typing_extensions import (
+    Any,
     get_type_hints,
     get_origin,
     get_args,
@@ -130,54 +131,75 @@ class WrappedField:
         return self.type_endpoint in [int, float, str, bool, datetime, NoneType]
 
     @cached_property
+    def type_without_optional(self) -> Any:
+        """
+        :return: The declared type; of an Optional type the argument that is not None, wherever it is written
+         (Optional[List[X]] is a container that may be missing).
+        """
+        if self.is_optional:
+            return self._without_none(self.resolved_type)
+        return self.resolved_type
+
+    @staticmethod
+    def _without_none(optional_type: Any) -> Any:
+        return next(
+            argument
+            for argument in get_args(optional_type)
+            if argument is not NoneType
+        )
+
+    @staticmethod
+    def _is_optional_type(type_: Any) -> bool:
+        # Optional[X], Union[X, None] / Union[None, X] and the X | None spelling are the same type
+        origin = get_origin(type_)
+        if origin not in [Union, Optional, types.UnionType]:
+            return False
+        if origin in (Union, types.UnionType):
+            args = get_args(type_)
+            return len(args) == 2 and NoneType in args
+        return True
+
+    @cached_property
     def is_container(self) -> bool:
-        return get_origin(self.resolved_type) in self.container_types
+        return get_origin(self.type_without_optional) in self.container_types
 
     @cached_property
     def container_type(self) -> Optional[Type]:
         if not self.is_container:
             return None
-        return get_origin(self.resolved_type)
+        return get_origin(self.type_without_optional)
 
     @cached_property
     def is_collection_of_builtins(self):
         return self.is_container and all(
             behaves_like_a_built_in_class(field_type)
-            for field_type in get_args(self.resolved_type)
+            for field_type in get_args(self.type_without_optional)
         )
 
     @cached_property
     def is_optional(self):
-        origin = get_origin(self.resolved_type)
-        # Optional[X], Union[X, None] / Union[None, X] and the X | None spelling are the same type
-        if origin not in [Union, Optional, types.UnionType]:
-            return False
-        if origin in (Union, types.UnionType):
-            args = get_args(self.resolved_type)
-            return len(args) == 2 and NoneType in args
-        return True
+        return self._is_optional_type(self.resolved_type)
 
     @cached_property
     def contained_type(self):
         if not self.is_container and not self.is_optional:
             raise ValueError("Field is not a container")
-        if self.is_optional:
+        if not self.is_container:
             # the argument that is not None, wherever it is written
-            return next(
-                argument
-                for argument in get_args(self.resolved_type)
-                if argument is not NoneType
-            )
-        else:
-            try:
-                return get_args(self.resolved_type)[0]
-            except IndexError:
-                if self.resolved_type is Type:
-                    return self.resolved_type
-                else:
-                    raise MissingContainedTypeOfContainer(
-                        self.clazz.clazz, self.name, self.container_type
-                    )
+            return self.type_without_optional
+        try:
+            element_type = get_args(self.type_without_optional)[0]
+        except IndexError:
+            if self.resolved_type is Type:
+                return self.resolved_type
+            else:
+                raise MissingContainedTypeOfContainer(
+                    self.clazz.clazz, self.name, self.container_type
+                )
+        if self._is_optional_type(element_type):
+            # List[Optional[X]]: elements that may be missing
+            element_type = self._without_none(element_type)
+        return element_type
 
     @cached_property
     def is_type_type(self) -> bool:
@@ -198,7 +220,7 @@ class WrappedField:
 
     @cached_property
     def is_one_to_many_relationship(self) -> bool:
-        return self.is_container and not self.is_builtin_type and not self.is_optional
+        return self.is_container and not self.is_builtin_type
 
     @cached_property
     def is_iterable(self):
